@@ -12,7 +12,7 @@ mkdir -p "$tmp/chk" && git -C /repo archive HEAD | tar -x -C "$tmp/chk"
 (cd "$tmp/chk" && (git apply "$seed/patch.diff" 2>/dev/null || patch -p1 --fuzz=3 -s < "$seed/patch.diff" >/dev/null 2>&1)) || { echo "$id: patch does not apply"; exit 2; }
 (cd "$tmp/chk" && go build ./... >"$tmp/build.log" 2>&1) || { echo "$id: does not build"; head -5 "$tmp/build.log"; exit 2; }
 alarms=0
-for p in $props; do echo $p; done | xargs -P 6 -I{} sh -c "GVC_REPO='$tmp/chk' GVC_OUT='$tmp/out-{}' /verif/bin/gvc check {} > '$tmp/{}.log' 2>&1; echo \$? > '$tmp/{}.rc'"
+for p in $props; do echo $p; done | xargs -P 6 -I{} sh -c "GVC_REPO='$tmp/chk' GVC_OUT='$tmp/out-{}' ${GVC_BIN:-/verif/bin/gvc} check {} > '$tmp/{}.log' 2>&1; echo \$? > '$tmp/{}.rc'"
 for p in $props; do
   rc=$(cat "$tmp/$p.rc")
   if [ "$rc" != "0" ]; then
